@@ -142,9 +142,12 @@ func (v *ClusterView) MergeFromWithOptions(other *ClusterView, opts MergeOptions
 			changed = true
 		}
 	}
+	// recomputeCounts 会裁剪版本向量（丢弃非成员的键、按上限截断）；必须与裁剪之前的向量比较，
+	// 否则被裁剪掉的条目会在 changed == false 的情况下悄然消失。
+	beforeVV := v.VersionVector
 	v.recomputeCounts()
 	mergedVV := v.VersionVector.Merge(other.VersionVector)
-	if !mergedVV.Equal(v.VersionVector) {
+	if !mergedVV.Equal(beforeVV) {
 		changed = true
 	}
 	v.VersionVector = mergedVV
